@@ -170,9 +170,9 @@ let main_exec () =
   let check_ir_shape tag n =
     incr stage_checks;
     let top_ok = (match n with NCat l -> (match List.rev l with NGoal :: _ -> true | _ -> false) | NGoal -> true | NCharSet [] -> true | _ -> false) in
-    if not (top_ok && ir_wf (ir_top n)) then begin
+    if not (top_ok && ir_wf (ir_top n) && brackets_wf (ir_top n)) then begin
       incr mism;
-      Printf.printf "MISMATCH stage=IRshape-%s case=%s pat=%s flags=%s detail=top_is_cat_goal:%b,ir_wf:%b\n" tag !cur_id !cur_pat !cur_flags top_ok (ir_wf (ir_top n))
+      Printf.printf "MISMATCH stage=IRshape-%s case=%s pat=%s flags=%s detail=top_is_cat_goal:%b,ir_wf:%b,brackets_wf:%b\n" tag !cur_id !cur_pat !cur_flags top_ok (ir_wf (ir_top n)) (brackets_wf (ir_top n))
     end in
   let ir_eval_limit = (try int_of_string (Sys.getenv "RV_IR_EVALS") with Not_found -> 4000) in
   let ir_fuel = nat_of_int_big 400 in
@@ -345,7 +345,16 @@ let main_exec () =
         flush_group (); hay := parse_hex hx; hayhex := hx; start := ios s;
         (* the haystack hypothesis of the UTF-8 theorems: stepping right never overshoots the end *)
         if not (walk_ok ix_utf8 !hay (nat_of_int (List.length !hay + 2)) (nat_of_int !start)) then begin
-          incr mism; Printf.printf "MISMATCH stage=haystack case=%s hay=%s start=%d detail=walk_ok:false\n" !cur_id hx !start end
+          incr mism; Printf.printf "MISMATCH stage=haystack case=%s hay=%s start=%d detail=walk_ok:false\n" !cur_id hx !start end;
+        (* ... and the prefilter hypothesis of the C04 theorem, for the start predicate of this program *)
+        (match !hdr with
+         | Some (_, _, _, sp) ->
+           (match searcher_test sp with
+            | Some test ->
+              if not (pref_walk_ok ix_utf8 !hay test (nat_of_int (List.length !hay + 2)) (nat_of_int !start)) then begin
+                incr mism; Printf.printf "MISMATCH stage=haystack case=%s pat=%s hay=%s start=%d detail=pref_walk_ok:false\n" !cur_id !cur_pat hx !start end
+            | None -> ())
+         | None -> ())
       | "X" :: what :: _ ->
         incr mism;
         Printf.printf "MISMATCH case=%s pat=%s flags=%s kind=%s\n" !cur_id !cur_pat !cur_flags what
